@@ -34,6 +34,37 @@ Print Assumptions C10_completion_frees_slot.
 Theorem C10_refusal_changes_nothing : forall s n, lstep s (LRefused n) = s.
 Proof. reflexivity. Qed.
 
+(* the completion hooks never MISS a completion either: after a status change (other than the VIOLATION mark), and at the exit of the
+   trade context manager, the trade concerned is not left Live with every order complete *)
+Theorem C10_hook_never_misses : forall s n st o t,
+  NoDup (map lt_id (ls_trades s)) -> st <> SViolation ->
+  oget n (ls_orders (order_status s n st)) = Some o -> In t (ls_trades (order_status s n st)) -> lt_id t = lo_trade o ->
+  trade_complete (order_status s n st) t = false.
+Proof. exact order_status_never_misses. Qed.
+Theorem C10_context_manager_exit_never_misses : forall s tid t,
+  NoDup (map lt_id (ls_trades s)) -> In t (ls_trades (trade_set s tid TLive)) -> lt_id t = tid -> trade_complete (trade_set s tid TLive) t = false.
+Proof. exact trade_exit_never_misses. Qed.
+Print Assumptions C10_hook_never_misses.
+
+(* INVARIANT OVER HISTORIES: for every history of placements (accepted or refused), requests, responses of any outcome in any order, exhausted
+   retries, unknown errors, snapshots (with adoption and replaced bets), refusals and restarts in which new order references are new
+   (wf_history), every trade that is Live and not flagged pending_orders has an order that is not complete - i.e. a trade completes
+   exactly when its last order completes: never earlier (C10_completion_is_sound) and never missed (this theorem).  The invariant also
+   carries: trade ids and order references are unique. *)
+Theorem C10_history_invariant : forall cs es, wf_history (lstate0 cs) es -> INV (lrun (lstate0 cs) es).
+Proof. exact lrun_INV. Qed.
+Print Assumptions C10_history_invariant.
+Theorem C10_live_trade_has_incomplete_order : forall cs es t, wf_history (lstate0 cs) es -> let s := lrun (lstate0 cs) es in
+  In t (ls_trades s) -> lt_status t = TLive -> lt_pending_orders t = false -> exists o, In o (ls_orders s) /\ lo_trade o = lt_id t /\ lo_complete o = false.
+Proof. exact live_trade_has_incomplete_order. Qed.
+Print Assumptions C10_live_trade_has_incomplete_order.
+(* non-vacuity: a history with a multi-order trade, a replacement, a cancel and snapshots is well-formed *)
+Example C10_wf_history_example : wf_history (lstate0 COMPLETE_STATUS)
+  [LPlace 0 0 0 101 500 200 false; LPlace 1 0 0 101 500 300 false; LResponsePlace [0; 1] [PSuccess 0 (Some 7001) 0; PSuccess 0 (Some 7002) 0];
+   LReq 0 2 250; LResponseReplace [0] [RReport (CSuccess 500) (Some (7003, 250, 500))]; LReq 1 0 0; LResponseCancel [1] [(7002, CSuccess 500)];
+   LSnapshot [{| sr_name := 0; sr_strategy := Some 0; sr_sel := 101; sr_row := {| rw_bet := 7003; rw_complete := true; rw_matched := 500; rw_remaining := 0; rw_cancelled := 0 |}; sr_size := 500; sr_price := 250 |}]].
+Proof. cbn [wf_history wfe]. repeat split; try reflexivity; intros x [<-|[]]; vm_compute; reflexivity. Qed.
+
 (* non-vacuity: two orders in one trade; the trade completes, and the slot is freed, exactly when the second one completes *)
 Example C10_example :
   let s1 := lrun (lstate0 COMPLETE_STATUS) [LPlace 0 0 0 101 500 200 false; LPlace 1 0 0 101 500 300 false; LResponsePlace [0; 1] [PSuccess 0 (Some 7001) 0; PSuccess 0 (Some 7002) 0];
